@@ -1454,6 +1454,26 @@ class Interp:
             if c is not None and c.lookup("__iter__", self.p) is None:
                 g = c.lookup("__getitem__", self.p)
                 if g is not None:
+                    # the old iteration protocol: obj[0], obj[1], … until IndexError.  When the object holds a list of known
+                    # length behind __getitem__, that is this list of items
+                    n_um, n_log = len(self.unmodelled), len(self.log)
+                    items, ended = [], False
+                    for k_ in range(17):
+                        try:
+                            r_ = self.call_function(g, [it, Sc(sym.Num(k_))], {}, node)
+                        except Raised:
+                            ended = True
+                            break
+                        if isinstance(r_, Unknown):
+                            ended = r_.tag == "index-out-of-range"
+                            if ended:
+                                del self.unmodelled[n_um + sum(1 for u_ in self.unmodelled[n_um:] if u_.get("tag") != "index-out-of-range"):]
+                            break
+                        n_um = len(self.unmodelled)
+                        items.append(r_)
+                    if ended and len(self.unmodelled) == n_um:
+                        return None, None, items
+                    del self.unmodelled[n_um:]
                     iv = fresh()
                     r = self.call_function(g, [it, Sc(sym.IV(iv))], {}, node)
                     for a_ in it.attrs.values():
@@ -2560,7 +2580,19 @@ class Interp:
                 v = self.eval(n.values[0].value, env)
                 if isinstance(v, Sc) and v.e is not None:
                     return StrV("<f-string>", arg=v.e)
-            return StrV("<f-string>")
+            # several pieces: the literal text and the values rendered into it are kept (a label that names a depth, a title)
+            parts, vals_ = [], []
+            for piece in n.values:
+                if isinstance(piece, ast.Constant):
+                    parts.append(("lit", str(piece.value)))
+                elif isinstance(piece, ast.FormattedValue):
+                    v = self.eval(piece.value, env)
+                    e_ = v.e if isinstance(v, Sc) and v.e is not None else None
+                    parts.append(("val", e_))
+                    vals_.append(e_)
+            out_ = StrV("<f-string>")
+            out_.parts = parts
+            return out_
         if isinstance(n, ast.Set):
             return Bag(sym.Choice([generic_elem(self.eval(e, env)) for e in n.elts]) if n.elts else sym.Opq("empty", ()),
                        None, False, None)
@@ -2742,6 +2774,14 @@ class Interp:
                 return Sc(sym.Expr(("cmp", "==" if isinstance(op, ast.Is) else "!=", a.e, b.e)))
             return Sc(sym.Opq("config", (), fresh("is")))
         if isinstance(op, (ast.In, ast.NotIn)):
+            if isinstance(a, Sc) and a.e is not None and isinstance(b, ObjV) and b.tag == "range" \
+                    and isinstance(b.attrs.get("lo"), Sc) and isinstance(b.attrs.get("hi"), Sc):
+                # k in range(lo, hi) for an integer k: lo <= k < hi
+                c = sym.And(sym.Cmp(">=", a.e, b.attrs["lo"].e), sym.Cmp("<", a.e, b.attrs["hi"].e))
+                d = self.decide(c)
+                if d is not None:
+                    c = sym.Bool(d)
+                return Sc(c if isinstance(op, ast.In) else sym.Not(c))
             if isinstance(a, StrV) and isinstance(b, Seq) and all(isinstance(x, StrV) for x in b.items):
                 r = a.s in [x.s for x in b.items]
                 return Sc(sym.Bool(r if isinstance(op, ast.In) else not r))
